@@ -173,6 +173,8 @@ class FakeSSLObject:
 
 
 class FakeContext:
+    options = 0
+
     def __init__(self, script, rec):
         self.script, self.rec = script, rec
 
@@ -224,6 +226,19 @@ def _events_to_case(events):
     return answers, obs
 
 
+def _own_context(cfg, role_client, ver, runner_fn):
+    """cfg["prior"] in (0, 1): this transport is NOT the first one created from its SSLContext: a complete session of a
+    transport with standard_compatible = prior (handshake, reads until the peer's close, close) has used the same
+    context object before.  Returns that context (None: the shared cached one, no history)."""
+    if cfg.get("_ctx") is not None:
+        return cfg["_ctx"]
+    if cfg.get("prior", -1) < 0:
+        return None
+    mine = K.fresh_ctx(role_client, ver, bool(cfg["ign"]))
+    runner_fn(dict(cfg, std=cfg["prior"], cut=None, prior=-1, _ctx=mine, plan=list(PLAN_DEFAULT), outer_scope=0))
+    return mine
+
+
 def run_async(cfg):
     """Run one scenario on the real AsyncTLSStreamTransport.  Returns dict(ops, answers, obs, info)."""
     from easynetwork.lowlevel.api_async.transports.tls import AsyncTLSStreamTransport
@@ -234,12 +249,13 @@ def run_async(cfg):
     if fake is None:
         ver, role_client = cfg["ver"], bool(cfg["client"])
         script = _peer_script(cfg["peer"])
+        mine = _own_context(cfg, role_client, ver, run_async)
         if role_client:
             peer = K.Peer(K.server_ctx(ver), True, script)
-            ctx = K.RecContext(K.client_ctx(ver, bool(cfg["ign"])), rec)
+            ctx = K.RecContext(mine or K.client_ctx(ver, bool(cfg["ign"])), rec)
         else:
             peer = K.Peer(K.client_ctx(ver), False, script)
-            ctx = K.RecContext(K.server_ctx(ver, bool(cfg["ign"])), rec)
+            ctx = K.RecContext(mine or K.server_ctx(ver, bool(cfg["ign"])), rec)
         peer.reply_close = bool(cfg.get("reply_close", 0))
     else:
         role_client = True
@@ -383,6 +399,14 @@ class RawRecContext:
     def __init__(self, real, log):
         self.real, self.log = real, log
 
+    @property
+    def options(self):
+        return self.real.options
+
+    @options.setter
+    def options(self, value):
+        self.real.options = value
+
     def wrap_socket(self, sock, **kw):
         self.kw = kw
         s = self.real.wrap_socket(sock, **kw)
@@ -444,6 +468,8 @@ class FakeSSLSocket:
 
 
 class FakeSyncContext:
+    options = 0
+
     def __init__(self, script, log):
         self.script, self.log = script, log
 
@@ -490,12 +516,13 @@ def run_sync(cfg):
     if fake is None:
         ver, role_client, cut, how = cfg["ver"], bool(cfg["client"]), cfg.get("cut"), cfg.get("how", 0)
         script = _peer_script(cfg["peer"])
+        mine = _own_context(cfg, role_client, ver, run_sync)
         if role_client:
             peer = K.Peer(K.server_ctx(ver), True, script)
-            ctx = RawRecContext(K.client_ctx(ver, bool(cfg["ign"])), log)
+            ctx = RawRecContext(mine or K.client_ctx(ver, bool(cfg["ign"])), log)
         else:
             peer = K.Peer(K.client_ctx(ver), False, script)
-            ctx = RawRecContext(K.server_ctx(ver, bool(cfg["ign"])), log)
+            ctx = RawRecContext(mine or K.server_ctx(ver, bool(cfg["ign"])), log)
         state["peer"] = peer
         b.settimeout(120.0)
 
@@ -700,8 +727,9 @@ def run_default_client(cfg):
     client = None
     try:
         try:
+            flag = {} if cfg.get("omit") else dict(ssl_standard_compatible=std)      # omitted: the documented default (True)
             client = TCPNetworkClient(a, StreamProtocol(StringLineSerializer()), ssl=True, server_hostname="localhost",
-                                      ssl_standard_compatible=std, ssl_handshake_timeout=120.0, ssl_shutdown_timeout=30.0)
+                                      ssl_handshake_timeout=120.0, ssl_shutdown_timeout=30.0, **flag)
             first = [1, 0, 0]
         except BaseException as exc:
             cause = exc.__cause__ if isinstance(exc, ConnectionAbortedError) and isinstance(exc.__cause__, ssl.SSLError) else exc
@@ -814,8 +842,9 @@ def run_default_client_async(cfg):
         saved = ssl.create_default_context
         ssl.create_default_context = _default_context_factory(holder, [], ver)
         try:
+            flag = {} if cfg.get("omit") else dict(ssl_standard_compatible=std)  # omitted: the documented default (True)
             client = AsyncTCPNetworkClient(a, StreamProtocol(StringLineSerializer()), AsyncIOBackend(), ssl=True,
-                                           server_hostname="localhost", ssl_standard_compatible=std,
+                                           server_hostname="localhost", **flag,
                                            # no timers: the deterministic loop must WAIT (real time, bounded by
                                            # allow_block) for the relay thread instead of advancing its virtual clock
                                            ssl_handshake_timeout=math.inf, ssl_shutdown_timeout=math.inf)
@@ -922,27 +951,27 @@ def _default_client_cases(thorough):
         total = r["info"]["delivered"]
         step = 8 if thorough else 64
         for cut in sorted(set(range(0, total + 1, step)) | {total - 30, total - 2, total - 1, total}):
-            for std in (1, 0):
-                cfg = dict(base, std=std, cut=cut)
+            for std, omit in ((1, 0), (0, 0), (1, 1)):       # omit: ssl_standard_compatible not given = the documented default, True
+                cfg = dict(base, std=std, cut=cut, omit=omit)
                 r = run_default_client(cfg)
-                inp = sx.norm([K_DEFAULT_CLIENT, std, r["ops"], r["answers"], 0, [b"client", ver, cut]])
+                inp = sx.norm([K_DEFAULT_CLIENT, std, r["ops"], r["answers"], 0, [b"client", ver, cut, omit]])
                 _MEMO[sx.to_text(inp)] = sx.norm(r["obs"])
                 yield dict(input=inp, nontrivial=cut < total,
                            tags=["default-client-path", "blocking", "real-openssl", f"tls1.{ver - 10}",
-                                 "std" if std else "nonstd", "truncated" if cut < total else "clean-close"])
+                                 "flag-omitted" if omit else "std" if std else "nonstd", "truncated" if cut < total else "clean-close"])
         # the same sweep through AsyncTCPNetworkClient(ssl=True)
         base = dict(kind=K_DEFAULT_CLIENT_ASYNC, std=1, ver=ver, cut=None)
         r = run_default_client_async(base)
         total = r["info"]["delivered"]
         for cut in sorted(set(range(0, total + 1, step)) | {total - 30, total - 2, total - 1, total}):
-            for std in (1, 0):
-                cfg = dict(base, std=std, cut=cut)
+            for std, omit in ((1, 0), (0, 0), (1, 1)):
+                cfg = dict(base, std=std, cut=cut, omit=omit)
                 r = run_default_client_async(cfg)
-                inp = sx.norm([K_DEFAULT_CLIENT_ASYNC, std, r["ops"], r["answers"], 1, [b"aclient", ver, cut]])
+                inp = sx.norm([K_DEFAULT_CLIENT_ASYNC, std, r["ops"], r["answers"], 1, [b"aclient", ver, cut, omit]])
                 _MEMO[sx.to_text(inp)] = sx.norm(r["obs"])
                 yield dict(input=inp, nontrivial=cut < total,
                            tags=["default-client-path", "async", "real-openssl", f"tls1.{ver - 10}",
-                                 "std" if std else "nonstd", "truncated" if cut < total else "clean-close"])
+                                 "flag-omitted" if omit else "std" if std else "nonstd", "truncated" if cut < total else "clean-close"])
 
 
 # ---- recv() pending / draining in one task while another task closes the transport
@@ -1152,7 +1181,8 @@ def _cfg_sx(cfg):
                 [list(s) for s in cfg["plan"]], int(cfg.get("hs_timeout", 60)), int(cfg.get("sd_timeout", 30))]
     return [b"real", cfg["ver"], int(cfg["client"]), -1 if cfg.get("cut") is None else cfg["cut"], int(cfg["ign"]),
             list(cfg["peer"]), [list(s) for s in cfg["plan"]], cfg.get("frag", 0), int(cfg.get("reply_close", 0)),
-            int(cfg.get("silent", 0)), cfg.get("how", 0), int(cfg.get("sd_timeout", 30)), int(cfg.get("outer_scope", 0))]
+            int(cfg.get("silent", 0)), cfg.get("how", 0), int(cfg.get("sd_timeout", 30)), int(cfg.get("outer_scope", 0)),
+            int(cfg.get("prior", -1))]
 
 
 def _sx_cfg(kind, std, f):
@@ -1162,7 +1192,8 @@ def _sx_cfg(kind, std, f):
                     plan=[_plan_step(s) for s in f[4]], hs_timeout=float(f[5]), sd_timeout=float(f[6]))
     return dict(kind=kind, std=std, ver=f[1], client=f[2], cut=None if f[3] < 0 else f[3], ign=f[4], peer=list(f[5]),
                 plan=[_plan_step(s) for s in f[6]], frag=f[7], reply_close=f[8], silent=f[9], how=f[10],
-                sd_timeout=float(f[11]) if len(f) > 11 else 30.0, outer_scope=f[12] if len(f) > 12 else 0)
+                sd_timeout=float(f[11]) if len(f) > 11 else 30.0, outer_scope=f[12] if len(f) > 12 else 0,
+                prior=f[13] if len(f) > 13 else -1)
 
 
 def _plan_step(s):
@@ -1214,10 +1245,10 @@ def run_impl(inp):
         return run_concurrent_close(_cclose_cfg(std, tail))["out"]
     if kind == K_DEFAULT_CLIENT:
         tail = inp[-1]
-        return run_default_client(dict(std=std, ver=tail[1], cut=tail[2]))["obs"]
+        return run_default_client(dict(std=std, ver=tail[1], cut=tail[2], omit=tail[3] if len(tail) > 3 else 0))["obs"]
     if kind == K_DEFAULT_CLIENT_ASYNC:
         tail = inp[-1]
-        return run_default_client_async(dict(std=std, ver=tail[1], cut=tail[2]))["obs"]
+        return run_default_client_async(dict(std=std, ver=tail[1], cut=tail[2], omit=tail[3] if len(tail) > 3 else 0))["obs"]
     cfg = _sx_cfg(kind, std, inp[-1])
     inp2, out, _info = _build(cfg)
     if sx.norm(inp2[3]) != sx.norm(inp[3]) and kind == K_ASYNC:
@@ -1263,6 +1294,18 @@ def _real_sweep(kind, thorough, rng):
                                          "client" if client else "server", "std" if std else "nonstd",
                                          "truncated" if trunc else "clean-close", "near-record-boundary" if near else "mid-record",
                                          "recv_into" if plan is PLAN_INTO else "recv", "real-openssl"])
+                # several transports created one after the other from ONE SSLContext with different standard_compatible settings:
+                # what an earlier transport did to the caller's context must not change what a later one reports
+                hist_cuts = sorted({total - 1, total} | set(sorted(bounds)[-2:]))
+                for cut in (hist_cuts if thorough else hist_cuts[-3:]):
+                    for prior, std in ((0, 1), (1, 1), (1, 0)):
+                        cfg = dict(base, std=std, cut=cut, prior=prior)
+                        inp, _out, info = _build(cfg)
+                        trunc = _truncated(info, cfg)
+                        yield dict(input=inp, nontrivial=trunc,
+                                   tags=["async" if kind == K_ASYNC else "blocking", "shared-context-history",
+                                         f"prior-{'std' if prior else 'nonstd'}", "std" if std else "nonstd",
+                                         "truncated" if trunc else "clean-close", "real-openssl"])
                 # OP_IGNORE_UNEXPECTED_EOF explicitly set on the context: outside the property's assumption, kept for the correspondence
                 for cut in sorted(bounds)[:: 1 if thorough else 2]:
                     for std in (1, 0):
@@ -1496,14 +1539,15 @@ def oracle(inp):
         return None
     if kind in (K_DEFAULT_CLIENT, K_DEFAULT_CLIENT_ASYNC):
         tail = inp[-1]
-        cfg = dict(std=std, ver=tail[1], cut=tail[2])
+        cfg = dict(std=std, ver=tail[1], cut=tail[2], omit=tail[3] if len(tail) > 3 else 0)
         r = run_default_client(cfg) if kind == K_DEFAULT_CLIENT else run_default_client_async(cfg)
         info = r["info"]
         first, last, _flag = r["obs"]
         trunc = not (info["peer_done"] and info["delivered"] >= info["peer_total"])
         eof = last[1] == 0 and first[1] == 0
         if std and trunc and eof:
-            return f"default client (ssl=True), standard-compatible: stream cut at {cfg['cut']} reported as clean end-of-stream"
+            return (f"default client (ssl=True), standard-compatible{' (ssl_standard_compatible not given: the default)' if cfg.get('omit') else ''}: "
+                    f"stream cut at {cfg['cut']} reported as clean end-of-stream")
         if not trunc and not eof:
             return "default client (ssl=True): complete stream with close-notify did not end cleanly"
         return None
